@@ -32,6 +32,10 @@ pub struct Pay {
     /// the payment contract answers only after 15 simulated seconds (a slow RPC endpoint)
     #[serde(default)]
     pub slow: bool,
+    /// this node's own quote was issued for the all-zero address (what a node signs when asked to quote for
+    /// an address that is no data address)
+    #[serde(default)]
+    pub zero_content: bool,
 }
 
 #[derive(Serialize, Deserialize, Clone, Debug, PartialEq)]
@@ -84,6 +88,9 @@ pub struct Plan {
     /// swarm knob: the registers of this run are open to any writer (Permissions::AnyoneCanWrite)
     #[serde(default)]
     pub open_registers: bool,
+    /// swarm knob: scratchpads carry more than 1 MiB of content
+    #[serde(default)]
+    pub big_pads: bool,
     pub steps: Vec<Step>,
 }
 
@@ -102,11 +109,13 @@ fn good_pay(rng: &mut Rng) -> Pay {
         other_addr: false,
         bogus_payee: None,
         slow: rng.chance(1, 6),
+        zero_content: false,
     }
 }
 
 fn break_one(rng: &mut Rng, p: &mut Pay) {
-    match rng.below(9) {
+    match rng.below(10) {
+        9 => p.zero_content = true,
         8 => p.bogus_payee = Some(rng.below(p.n as u64) as u8),
         0 => {
             let i = rng.usize_below(p.n as usize);
@@ -171,8 +180,9 @@ fn gen_delivery(rng: &mut Rng, prop: &str, mutable_only: bool, unpaid_bias: bool
     } else {
         0
     };
-    let mangle = if prop == "C04" && rng.chance(1, 12) {
-        if rng.chance(1, 6) { 2 } else { 1 }
+    let mangle = if prop == "C04" && rng.chance(1, 10) {
+        // 1 truncated, 2 oversized (kad put path), 3 the right content in a non-canonical encoding
+        match rng.below(7) { 0 => 2, 1 | 2 => 3, _ => 1 }
     } else {
         0
     };
@@ -343,6 +353,7 @@ impl Sim for NodeSim {
             cache: *rng.pick(&[0usize, 0, 1, 2]),
             collide,
             open_registers: rng.chance(1, 5),
+            big_pads: ctx.property == "C07" && rng.chance(1, 25),
             n_peers: match rng.below(4) { 0 => rng.urange(7, 18), 1 => rng.urange(19, 40), _ => 24 },
             steps,
         }
